@@ -19,6 +19,7 @@ expression and every binding is checked online against the facts:
 from __future__ import annotations
 
 import random
+import re
 import traceback
 from fractions import Fraction
 
@@ -135,6 +136,9 @@ class FactChecker:
             where = repr(node)[:120]
         w = {'property': PROP, 'analysis': analysis, 'problem': problem, 'at': where[:300], 'args': self.args_repr, 'source': self.source,
              'mechanism': {'analysis': analysis, 'node': type(node).__name__}}
+        if analysis == 'size':
+            # F86: a list stored into a slot through an alias of the container (n = m; n[0] = [..]) - sizes follow the written name only
+            w['mechanism']['list_store_through_alias'] = bool(_ALIAS_STORE.search(self.source or ''))
         w.update(more)
         if analysis == 'size':
             w['_key'] = key
@@ -372,6 +376,9 @@ PROFILES = [
 ARGS = [('R', 'R', 'L'), ('R', 'L'), ('R', 'R'), ('R', 'B', 'L'), ('L', 'L', 'R'), ('R', 'LL', 'L'), ('R', 'T', 'L'), ('R', 'LL')]
 
 
+_ALIAS_STORE = re.compile(r'^\s*(\w+) = (\w+)\n(?:.*\n)*?\s*\1\[[^\]=]*\] = \[', re.M)
+
+
 DIRECTED = [
     # +0 on one path, -0 on the other: not one constant
     'with fp.INTEGER:\n        v = -0.0 * 0.5\n    if x1 < 0:\n        with fp.MPFloatContext(4):\n            v = v * (-v)\n    return 1 / v',
@@ -380,6 +387,10 @@ DIRECTED = [
     # aliasing through an otherwise unconstrained parameter, elements, slices, tuples
     'ys = xs1\n    zs = ys\n    t = (zs, x1)\n    a, b = t\n    ws = a[0:1]\n    return (ys, ws, b)',
     'rows = [xs1, xs1]\n    r = rows[0]\n    q = rows[1]\n    for row in rows:\n        k = row\n    return (r, q)',
+    # stores through one, two and three indices with a list-valued right-hand side; the slot is then reached by indexing and by iteration
+    'c3 = [[[xs1, xs1], [xs1]], [[xs1, xs1], [xs1]]]\n    ys = [x1, x2]\n    c3[1][0][1] = ys\n    r = c3[1][0][1]\n    for plane in c3:\n        for row in plane:\n            for cell in row:\n                k = cell\n    c2 = [[xs1], [xs1]]\n    zs = [x2]\n    c2[1][0] = zs\n    q = c2[1][0]\n    return (r, q, ys, zs)',
+    'c3 = [[[xs1]], [[xs1]]]\n    ys = [x1, x2, x1]\n    i = 1\n    c3[i][0][0] = ys\n    p = c3[i]\n    w = p[0]\n    r = w[0]\n    return (r, ys, len(r))',
+    'm = [[x1, x1], [x1, x1]]\n    n = m\n    n[0] = [x1, x1, x1]\n    t = m[0]\n    return (t, len(t))',
     # sizes: slices, rebinding in branches and loops, zip / enumerate
     'ys = [x1, x2, 3]\n    if x1 < x2:\n        ys = [x1, x2]\n    zs = ys[1:]\n    ws = [a + b for a, b in zip(ys, ys)]\n    return (len(ys), zs, ws)',
     'ys = [x1]\n    for i in range(3):\n        ys = [x2, x2, x1] if x1 > i else [e for e in ys]\n    zs = [e for e in ys]\n    return (ys, zs)',
